@@ -257,8 +257,9 @@ EXTREME = [datetime.min, datetime.max, datetime(1, 1, 1, 0, 0, 0, 1),
            datetime(2038, 1, 19, 3, 14, 8)]
 ATTRS = [{}, {"sat": "noaa18"}, {"n": 3, "x": 1.5, "ok": True, "none": None},
          {"nested": {"a": [1, 2, {"b": "c"}]}, "uni": "ä€\U0001f600"},
-         {"quote": "a\"b\\c\n", "long": "x" * 300}]
-KINDS = ["filename", "filename_ms", "nontemporal", "handler"]
+         {"quote": "a\"b\\c\n", "long": "x" * 300},
+         {"fsname": "caf\udce9.dat", "note": "surrogate-escaped byte, as from os.fsdecode"}]
+KINDS = ["filename", "filename_ms", "nontemporal", "handler", "filename_noend"]
 
 
 def gen_workload(tape):
@@ -312,6 +313,8 @@ def gen_workload(tape):
             o["which"] = [i for i in range(n) if tape.flag("some", 1, 2)]
         elif op == "remove_file" and n:
             o["which"] = tape.choice(n, "rm")
+        elif op == "set_coverage":
+            o["tcov"] = tape.choice(3, "tcov")
         ops.append(o)
         if op == "corrupt":
             # look at the corrupted file before a later save replaces it
@@ -334,12 +337,15 @@ def _template(w, root):
                 "{millisecond}-{end_hour}{end_minute}{end_second}{end_millisecond}.dat")
     if k == "nontemporal":
         return f"{root}/data/{{name}}.bin"
+    if k == "filename_noend":
+        # no end fields: the end of the coverage is start + time_coverage
+        return f"{root}/data/{{sat}}-{{year}}{{month}}{{day}}T{{hour}}{{minute}}{{second}}.dat"
     return f"{root}/data/h_{{idx}}.raw"
 
 
 def _file_path(w, root, f):
     k = w["kind"]
-    if k in ("filename", "filename_ms"):
+    if k in ("filename", "filename_ms", "filename_noend"):
         t0 = datetime(2018, 5, 1) + timedelta(minutes=f["off_min"])
         if k == "filename_ms":
             t0 += timedelta(milliseconds=f["ms"])
@@ -383,6 +389,7 @@ class Exec:
         self.branch_samples = []
         self.blog = []
         self.sweeps = 0
+        self.tcov_now = None
         self.atexit_save = False
         self.atexit = _Atexit()
         self.V = []
@@ -420,6 +427,7 @@ class Exec:
             kw["handler"] = _T["FileHandler"](info=handler_info)
             kw["info_via"] = "handler"
         return _T["FileSet"](_template(w, self.root), name="S",
+                             time_coverage=self.tcov_now,
                              info_cache=self.cache if with_cache else None, **kw)
 
     # -- operations -------------------------------------------------------------
@@ -533,8 +541,19 @@ class Exec:
                     func(*args, **kwargs)
             else:
                 fs.save_cache(self.cache)
-        finally:
+        except SimCrash:
+            raise
+        except Exception as e:  # noqa: a fault-free save must not fail
             self.disk.end_save()
+            self.V.append(_viol(f"C15/save/exception/{type(e).__name__}",
+                                f"save_cache raised {type(e).__name__}: {e}"[:300]))
+            return
+        self.disk.end_save()
+        if not os.path.isfile(self.cache):
+            self.V.append(_viol("C15/save/not-written",
+                                "save_cache returned but there is no cache file"))
+            self.saved_bytes = self.saved_snap = None
+            return
         with open(self.cache, "rb") as f:
             self.saved_bytes = f.read()
         self.saved_snap = snap
@@ -678,11 +697,14 @@ class Exec:
             self.corrupt(o)
         elif kind == "set_coverage":
             if self.w["kind"] != "nontemporal":
-                fs.time_coverage = "1 hour"
+                # the new value stays: for templates without end fields every
+                # cached coverage is different afterwards
+                self.tcov_now = ["1 hour", "10 minutes", None][o.get("tcov", 0) % 3] \
+                    if self.tcov_now is None else None
+                fs.time_coverage = self.tcov_now
                 if fs.info_cache:
                     self.V.append(_viol("C15/coverage-reset",
                                         "info cache not reset by time_coverage"))
-                fs.time_coverage = None
         elif kind == "remove_file":
             if self.w["files"]:
                 p = _file_path(self.w, self.root, self.w["files"][o["which"]])
